@@ -146,12 +146,20 @@ func main() {
 				runParser(c, w)
 			},
 			Describe: func(i int64) any { return sp.NeighCase(i).Describe() }},
+		{Name: "deep", Len: sp.DeepLen(),
+			Run: func(i int64, w *enum.Worker) {
+				c := sp.DeepCase(i)
+				runPacket(c, w)
+				runDirect(c, sp.TSeeds[c.SeedIdx].Data, w)
+				runParser(c, w)
+			},
+			Describe: func(i int64) any { return sp.DeepCase(i).Describe() }},
 		{Name: "cross", Len: sp.CrossLen(),
 			Run:      func(i int64, w *enum.Worker) { c := sp.CrossCase(i); runPacket(c, w); runDirect(c, nil, w) },
 			Describe: func(i int64) any { return sp.CrossCase(i).Describe() }},
 	}
 	phases = append(phases, containerPhase())
-	r.Coverage["rule"] = "cases = (first layer, input) from: all byte strings of length <=2 and constant fills x every registered first layer; deviation<=1 neighbourhoods (every prefix, byte substitutions, 16/32-bit window overwrites, extensions) of per-layer-type seeds derived from the repository fixtures; every seed x every first layer. Each case is run through NewPacket(SkipDecodeRecovery) eager/lazy x DSAD on/off, DecodeFromBytes on fresh and re-used values of every DecodingLayer type for that layer type, and a DecodingLayerParser{IgnorePanic} over all DecodingLayer types. parser-containers: stub decoding layers with type numbers 1..6 whose next type is the first input byte: every subset of registered types x map/sparse/array/custom container x built by Put / AddDecodingLayer / constructor x ascending/descending registration x first type 1..7 x IgnoreUnsupported x every input of length <=3 over bytes 0..7, through DecodeLayers with IgnorePanic; decoded list and outcome compared with a reference interpreter. distinct_nontrivial = distinct (first layer, decoded layer-type sequence) outcomes."
+	r.Coverage["rule"] = "cases = (first layer, input) from: all byte strings of length <=2 and constant fills x every registered first layer; deviation<=1 neighbourhoods (every prefix, byte substitutions, 16/32-bit window overwrites, extensions) of per-layer-type seeds derived from the repository fixtures, in the first 96 [256] bytes, and beyond that, to the end of the seed (at most 1600 [65536] bytes), every 16-bit window overwritten with 7 length-like values in both byte orders and every byte with 5 values; every seed x every first layer. Each case is run through NewPacket(SkipDecodeRecovery) eager/lazy x DSAD on/off, DecodeFromBytes on fresh and re-used values of every DecodingLayer type for that layer type, and a DecodingLayerParser{IgnorePanic} over all DecodingLayer types. parser-containers: stub decoding layers with type numbers 1..6 whose next type is the first input byte: every subset of registered types x map/sparse/array/custom container x built by Put / AddDecodingLayer / constructor x ascending/descending registration x first type 1..7 x IgnoreUnsupported x every input of length <=3 over bytes 0..7, through DecodeLayers with IgnorePanic; decoded list and outcome compared with a reference interpreter. distinct_nontrivial = distinct (first layer, decoded layer-type sequence) outcomes."
 	r.Coverage["decoding_layer_types"] = len(dls)
 	r.Coverage["first_layers"] = len(sp.Firsts)
 	r.Coverage["per_type_seeds"] = len(sp.TSeeds)
